@@ -491,6 +491,40 @@ def check_C01(ctx):
                         i_ += 1
                 toks = opts_ + [t for t in toks if not t.startswith("-") and t not in ("v",)][:ctx.rng.randint(1, 8)]
             blank.append({"op": "run", "env": {}, "version": None, "root": gen.mkcmd("app", decls=copy.deepcopy(ld), spec=sp, policy=0), "argv": toks})
+    # size outliers that the model's list-based construction is too slow for: a repeated group with 24-48 optional flags and
+    # a positional; the lines are built round by round, so whether they are sentences is known by construction (library alone)
+    big_letters = "abcdefgijklmnopqrstuvwxyzABCDEFGIJKLMNOPQRSTUVWXYZ"
+    big = []
+    for n_ in (24, 34, 40, 48):
+        bdecl = [gen.mkopt("bool", ch, **{"def": ["false"]}) for ch in big_letters[:n_]] + [gen.mkarg("strings", "X")]
+        bspec = "(" + " ".join("[-%s]" % ch for ch in big_letters[:n_]) + " X)..."
+        for _ in range(ctx.scale(6, 40)):
+            rounds = ctx.rng.randint(1, 4)
+            line, xs = [], []
+            for r_ in range(rounds):
+                fl = ctx.rng.sample(big_letters[:n_], ctx.rng.randint(0, 3))
+                if ctx.rng.random() < 0.5:
+                    fl.sort(key=big_letters.index)
+                line += ["-" + ch for ch in fl] + ["x%d" % r_]
+                xs.append("x%d" % r_)
+            good = True
+            if ctx.rng.random() < 0.25:
+                line.append("-" + ctx.rng.choice(big_letters[:n_]))     # a round that lacks its positional
+                good = False
+            big.append({"op": "run", "env": {}, "version": None, "root": gen.mkcmd("app", decls=copy.deepcopy(bdecl), spec=bspec, policy=0),
+                        "argv": line, "_good": good, "_xs": xs})
+    number(big, start=3 * 10 ** 6)
+    bres = core.run_impl(big, timeout_ms=10000)
+    for c in big:
+        ctx.count(c)
+        a = obs_impl(bres[c["id"]])
+        if a["outcome"][0] == "timeout":
+            continue
+        if accepted(a) != c["_good"] or (c["_good"] and a["values"].get("app|X") != c["_xs"]):
+            ctx.violation("sentence", "spec (a repeated group of %d optional flags and X), command line %r: the implementation %s it (X = %r), but it is %sa "
+                          "sentence of the spec" % (len(c["root"]["decls"]) - 1, c["argv"], "accepts" if accepted(a) else "rejects",
+                                                    a["values"].get("app|X"), "" if c["_good"] else "not "), case=c, impl=a["outcome"])
+    ctx.stream("large repeated groups, judged by construction", len(big))
     blank += dd_env_cases(ctx, ctx.scale(6000, 60000))
     number(blank, start=len(cases) + len(sc))
     res3 = correspond(ctx, blank, fields, "specs of blanks and padded specs")
